@@ -180,6 +180,11 @@ impl<'a> ParamsSequence<'a> {
 				self.0 = "";
 				return None;
 			}
+			b'[' if json[1..].trim_start().starts_with(']') => {
+				// An empty array with interior whitespace, e.g. `[ ]`, has no elements either.
+				self.0 = "";
+				return None;
+			}
 			b'[' | b',' => json = &json[1..],
 			_ => {
 				let errmsg = format!("Invalid params. Expected one of '[', ']' or ',' but found {json:?}");
